@@ -15,6 +15,8 @@ def main(tier):
     # the crash class (6 faulted models) on the ASan+UBSan library
     c.run_family('asan', 'c04', 'cyc', env=env, per_case_timeout=60, chunk=1)
     # math-free families on the plain library (0.05 ms per validation): every injector at every location of every base
+    c.run_family('plain', 'c04', 'chain', env=env)
+    c.run_family('asan', 'c04', 'chain', env=env, hi=2000 if quick else 20000)
     for fam in ('h', 'u', 'v', 'i'):
         c.run_family('plain', 'c04', fam, env=env, chunk=2000 if fam == 'h' else None)
     # math-bearing families (16-75 ms per validation): one case = one injector on one base
@@ -32,7 +34,7 @@ def main(tier):
     # (the statistics of a worker that died are lost: a crash inside an injector is itself one location of that injector)
     for v in c.raw:
         if v['sig'].startswith('crash:') or v['sig'] == 'hang':
-            n = 'units-cycle-under-connection' if v['family'] == 'cyc' else names[v['family']][v['i'] % per[v['family']]]
+            n = 'units-cycle-under-connection' if v['family'] == 'cyc' else 'conn-units-incompatible-chain' if v['family'] == 'chain' else names[v['family']][v['i'] % per[v['family']]]
             c.counters['loc:' + n] = c.counters.get('loc:' + n, 0) + 1
     empty = [n for n in catalogue if c.counters.get('loc:' + n, 0) == 0]
     if empty:
@@ -45,8 +47,8 @@ def main(tier):
              'dimensions (component forests of <= %d components in every shape/child order x 1-2 variables x every set of <= 3 admissible connections x '
              'connection/units/naming/decoration patterns; one units definition in every reference/prefix/exponent/multiplier combination; variable '
              'attributes; 0-2 resets over 1-3 connected components; imports: every non-empty subset of 5 import kinds x shared/own source x resolved/unresolved; '
-             'equation shapes and one valid use of every supported MathML element). Each injector is applied at every applicable location of the base, one fault '
-             'at a time; judged = validations compared with the expected-rule table in harness/c04.cpp (plus one zero-issue check per base)' % (3 if quick else 4),
+             'equation shapes and one valid use of every supported MathML element; units chains of 1-4 user-defined levels with an exponent from {1,2,-1,0.5%s} at every level x prefix/multiplier decoration x 4 innermost units, paired across a connection with base^p for every p a wrong reduction could produce, verdict from the harness-side product of exponents). Each injector is applied at every applicable location of the base, one fault '
+             'at a time; judged = validations compared with the expected-rule table in harness/c04.cpp (plus one zero-issue check per base)' % (3 if quick else 4, '' if quick else ',3'),
         assumptions=[
             'valid = valid by construction from the grammar in harness/c04.cpp; models are built through the API, never parsed',
             'expected rule sets are written from the CellML 2.0 rule names / section headings (table at the top of the fault catalogue in harness/c04.cpp); a neighbouring rule is accepted only where listed there',
